@@ -305,7 +305,7 @@ func isPoolOp(name string) bool {
 		return true
 	case "Status":
 		return true
-	case "Burst", "Open", "Mode", "Close", "Connect", "Host", "Client", "Update", "Peer", "AddNode", "Withdraw", "Account", "Deposit", "SettleMode", "Ping":
+	case "Burst", "Open", "Mode", "Close", "Connect", "ConnectDrop", "Host", "Client", "Update", "Peer", "AddNode", "Withdraw", "Account", "Deposit", "SettleMode", "Ping":
 		return true
 	}
 	return false
@@ -627,6 +627,26 @@ func (w *World) poolOp(op J) (J, error) {
 			return pw.classify(err), nil
 		}
 		return okRes(J{"version": resp.PoolVersion}), nil
+	case "ConnectDrop":
+		// the agent sends vipnode_connect and its connection ends before the reply: the request is (or is not)
+		// carried out, but a connection that is gone must not stay registered
+		req := pool.ConnectRequest{VipnodeVersion: "vipverif", NodeInfo: ethnode.UserAgent{Version: "v", Kind: ethnode.ParseNodeKind(str(op, "kind")), IsFullNode: boolean(op, "full")},
+			NodeURI: nodeURIOf(w, op), Payout: w.names.wallet(str(op, "payout"))}
+		args := pw.signedArgs(op, "vipnode_connect", false, []interface{}{req}, []interface{}{req})
+		msg, err := c.agent.Client.Request("vipnode_connect", args...)
+		if err != nil {
+			return nil, err
+		}
+		if err := c.agent.Codec.WriteMessage(msg); err != nil {
+			return nil, fmt.Errorf("ConnectDrop: %v", err)
+		}
+		pw.closeConn(c)
+		if fakeClock {
+			time.Sleep(time.Millisecond) // quiescence: the handler of the request in flight has finished
+		} else {
+			time.Sleep(40 * time.Millisecond)
+		}
+		return okRes(nil), nil
 	case "Host":
 		req := pool.HostRequest{Kind: str(op, "kind"), Payout: w.names.wallet(str(op, "payout")), NodeURI: w.realURI(str(op, "uri"))}
 		alt := req
